@@ -475,3 +475,25 @@ def c03_6(ctx: Ctx) -> RuleResult:
     r.rule, r.title, r.floor = "C03.6", "realization_min_success / perturbation_min_success keep their configured value (default only for None, clamped to the ensemble / perturbation count)", 2
     return r
 
+
+
+@rule(P)
+def c03_7(ctx: Ctx) -> RuleResult:
+    """Contradiction rule over the evaluation pipeline (the ensemble evaluator's methods and the gradient / function /
+    result helpers): optional arrays (constraints, perturbed values, per-function weight matrices, cached results) are
+    never dereferenced, indexed or compared on a path where the test in force says they are None.  A flipped `is None`
+    there either raises inside an evaluation or silently skips the constraints / the filter's weights."""
+    from .common import none_contradictions
+
+    res = RuleResult("C03.7", "DOM", "optional values of the evaluation pipeline are used only where they are present (None-test polarity)")
+    ee = ctx.repo.cls("ropt.ensemble_evaluator._ensemble_evaluator.EnsembleEvaluator")
+    funcs = [m for m in ee.methods.values() if not isinstance(m.node, ast.Lambda)]
+    for mod in ("ropt.ensemble_evaluator._gradient", "ropt.ensemble_evaluator._function", "ropt.ensemble_evaluator._utils", "ropt.ensemble_evaluator._evaluator_results"):
+        funcs += [f for f in ctx.repo.funcs_in(mod) if not isinstance(f.node, ast.Lambda)]
+    n = 0
+    for f in funcs:
+        n += none_contradictions(ctx, res, f, f.name)
+    if n < 20:
+        raise AnalysisError(f"only {n} conditioned uses found in the evaluation pipeline")
+    res.floor = 10
+    return res
